@@ -58,6 +58,8 @@ PROPS = {
             part('evict', RESTART, 220, 4000, judge=True, props=['C12'], chunk=15, store='mem'),
             part('sqlite', RESTART, 40, 800, judge=True, props=['C12'], chunk=3, store='sqlite'),
             part('pairs', RESTART, 40, 1500, judge=True, props=['C12'], chunk=10, store='mem', pairs=True),
+            part('sqlite-data', RESTART, 30, 600, judge=True, props=['C12'], chunk=3, store='sqlite', base='data'),
+            part('sqlite-error', RESTART, 15, 300, judge=True, props=['C12'], chunk=3, store='sqlite', base='error'),
         ],
     },
     'C17': {
